@@ -33,6 +33,10 @@ type RecFetcher struct {
 	Keys     map[string]eval.VariableKey
 	KeyError string
 	Cachedq  int
+	// HasDefault: names that are not in Vals are bound to Default (hostile-binding workloads)
+	HasDefault bool
+	Default    interface{}
+	AvailHash  bool // availability decided by a hash of the name (for names the harness does not know)
 }
 
 func (f *RecFetcher) Get(k eval.VariableKey, s string) (eval.Value, error) {
@@ -45,6 +49,9 @@ func (f *RecFetcher) Get(k eval.VariableKey, s string) (eval.Value, error) {
 		}
 	}
 	v, ok := f.Vals[s]
+	if !ok && f.HasDefault {
+		return f.Default, nil
+	}
 	if !ok || (f.Avail != nil && !f.Avail[s]) {
 		return nil, ErrUnbound
 	}
@@ -55,6 +62,9 @@ func (f *RecFetcher) Set(k eval.VariableKey, s string, v eval.Value) error { ret
 
 func (f *RecFetcher) Cached(k eval.VariableKey, s string) bool {
 	f.Cachedq++
+	if f.AvailHash {
+		return hashStr(s)%3 != 0
+	}
 	_, ok := f.Vals[s]
 	if f.Avail != nil {
 		return ok && f.Avail[s]
